@@ -276,3 +276,55 @@ example : rollbacks .exceptLast [-123, 7, -123, 7, 7] = .ok [true, true, false, 
 #print axioms C15_first
 #print axioms C15_last
 end Peppi
+
+namespace Peppi
+/-- **C15, corollary**: a game without repeated frame ids yields an all-false mask (keep-first mode) -/
+theorem C15_first_nodup (ids : List Int) (h : ∀ x ∈ ids, FIRST_INDEX ≤ x) (hnd : ids.Nodup) :
+    ∃ m, rollbacks .exceptFirst ids = .ok m ∧ m.length = ids.length ∧ ∀ b ∈ m, b = false := by
+  obtain ⟨m, hm, hl, hspec⟩ := C15_first ids h
+  refine ⟨m, hm, hl, ?_⟩
+  intro b hb
+  obtain ⟨i, hi, rfl⟩ := List.getElem_of_mem hb
+  cases hbi : m[i] with
+  | false => rfl
+  | true =>
+    exfalso
+    have hi' : i < ids.length := by omega
+    have : m[i]? = some true := by rw [List.getElem?_eq_getElem hi, hbi]
+    obtain ⟨j, hj, hji⟩ := (hspec i hi').mp this
+    have := (List.getElem_inj (h₀ := by omega) (h₁ := hi') hnd).mp hji
+    omega
+
+/-- **C15, corollary**: in keep-first mode the first occurrence of every frame id is unmarked — so at least one row per
+    distinct id survives de-duplication, and by `C15_first` every later occurrence is marked: exactly one survives -/
+theorem C15_first_keeps_first (ids : List Int) (h : ∀ x ∈ ids, FIRST_INDEX ≤ x) (i : Nat) (hi : i < ids.length)
+    (hfirst : ∀ j, ∀ hj : j < i, ids[j] ≠ ids[i]) :
+    ∃ m, rollbacks .exceptFirst ids = .ok m ∧ m[i]? = some false := by
+  obtain ⟨m, hm, hl, hspec⟩ := C15_first ids h
+  refine ⟨m, hm, ?_⟩
+  have him : i < m.length := by omega
+  rw [List.getElem?_eq_getElem him]
+  cases hbi : m[i] with
+  | false => rfl
+  | true =>
+    exfalso
+    have : m[i]? = some true := by rw [List.getElem?_eq_getElem him, hbi]
+    obtain ⟨j, hj, hji⟩ := (hspec i hi).mp this
+    exact hfirst j hj hji
+
+/-- **C15, corollary**: in keep-last mode the last occurrence of every frame id is unmarked -/
+theorem C15_last_keeps_last (ids : List Int) (h : ∀ x ∈ ids, FIRST_INDEX ≤ x) (i : Nat) (hi : i < ids.length)
+    (hlast : ∀ j, ∀ hj : j < ids.length, i < j → ids[j] ≠ ids[i]) :
+    ∃ m, rollbacks .exceptLast ids = .ok m ∧ m[i]? = some false := by
+  obtain ⟨m, hm, hl, hspec⟩ := C15_last ids h
+  refine ⟨m, hm, ?_⟩
+  have him : i < m.length := by omega
+  rw [List.getElem?_eq_getElem him]
+  cases hbi : m[i] with
+  | false => rfl
+  | true =>
+    exfalso
+    have : m[i]? = some true := by rw [List.getElem?_eq_getElem him, hbi]
+    obtain ⟨j, hj, hij, hji⟩ := (hspec i hi).mp this
+    exact hlast j hj hij hji
+end Peppi
